@@ -9,6 +9,9 @@ ops
          cols: per side, in order: u_e (e in dirs), r (x,y,z in 3-D / scalar in 2-D), p;  then g_e (e in dirs)
   {"op":"resid","dim":..,"faces":[face + "g":[q,q,q]],"cells":[{"vol":q,"mu":q,"lam":q}..],"u":[[q,q,q]..],"r":[[q,q,q]..],"p":[q..]}
       -> {"res":[[mom (nd), rot (3 | 1), mass] per cell]}     = div (F x + R g) - accum x
+  {"op":"matrix","dim":..,"faces":[face..],"cells":[..]}
+      -> {"A":[[q..]..],"B":[[q..]..]}   the assembled system matrix A = div F - accum and B = div R (rows), unknowns and
+         equations ordered as in the real code: u (cell-major), r (cell-major), p
 -/
 import PorepyVerif.Common.Wire
 import PorepyVerif.C16.Model
@@ -94,11 +97,46 @@ def opResid (j : Json) : R Json := do
       ++ [r.mass])
   pure (obj [("res", ofList ofRats res)])
 
+/-- all residuals in the ordering of the real system: momentum (cell-major, nd components), rotation
+    (cell-major, 3 / 1 components), solid mass -/
+def residVec (dim3 : Bool) (fs : Faces) (cellF : Nat → Cell) (nc : Nat) (st : State) : List Rat :=
+  let rs := (List.range nc).map (fun c => resid dim3 fs cellF st c)
+  (rs.map (fun r => if dim3 then [r.mom.x, r.mom.y, r.mom.z] else [r.mom.x, r.mom.y])).flatten
+    ++ (rs.map (fun r => if dim3 then [r.rot.x, r.rot.y, r.rot.z] else [r.rot.z])).flatten
+    ++ rs.map (fun r => r.mass)
+
+/-- the assembled system: `resid = A x + B g` is affine, so the columns of `A = div F - accum` are the residuals of
+    the unit states with zero boundary data and the columns of `B = div R` the residuals of the zero state with
+    unit boundary data -/
+def opMatrix (j : Json) : R Json := do
+  let dim3 ← jDim3 j
+  let fjs ← field j "faces" >>= jList pure
+  let faces : List Face ← fjs.mapM jFace
+  let cjs ← field j "cells" >>= jList pure
+  let cells : List Cell ← cjs.mapM (fun cj => do pure ⟨← fRat cj "vol", ← fRat cj "mu", ← fRat cj "lam"⟩)
+  let nc := cells.length
+  let cellF : Nat → Cell := fun c => cells.getD c ⟨0, 1, 1⟩
+  let fs0 : Faces := faces.map (fun f => (f, Vec.zero))
+  let rdirs : List Dir := if dim3 then [.x, .y, .z] else [.z]
+  let cs := List.range nc
+  let ustates : List State :=
+    (cs.map (fun c => (dirs dim3).map (fun e => (⟨unitV c (Vec.unit e), zeroV, zeroS⟩ : State)))).flatten
+      ++ (cs.map (fun c => rdirs.map (fun e => (⟨zeroV, unitV c (Vec.unit e), zeroS⟩ : State)))).flatten
+      ++ cs.map (fun c => (⟨zeroV, zeroV, unitS c⟩ : State))
+  let acols := ustates.map (fun st => residVec dim3 fs0 cellF nc st)
+  let zeroSt : State := ⟨zeroV, zeroV, zeroS⟩
+  let gcols := ((List.range faces.length).map (fun k => (dirs dim3).map (fun e =>
+      let fsk : Faces := faces.zipIdx.map (fun (f, i) => (f, if i = k then Vec.unit e else Vec.zero))
+      residVec dim3 fsk cellF nc zeroSt))).flatten
+  let n := acols.length
+  pure (obj [("A", ofList ofRats (transpose n acols)), ("B", ofList ofRats (transpose n gcols))])
+
 def handle (j : Json) : R Json := do
   let op ← fStr j "op"
   match op with
   | "face" => opFace j
   | "resid" => opResid j
+  | "matrix" => opMatrix j
   | _ => throw s!"unknown op {op}"
 
 def main : IO Unit := runPure handle
